@@ -39,6 +39,19 @@ func main() {
 			}
 		}
 	}
+	if *dump == "@funcs" {
+		p, err := an.Load(*repo, nil, false)
+		if err != nil {
+			fmt.Println("ERROR", err)
+			os.Exit(2)
+		}
+		for _, f := range p.Funcs {
+			if f.Parent() == nil && f.Synthetic == "" {
+				fmt.Println(an.QualName(f))
+			}
+		}
+		return
+	}
 	if *dump != "" {
 		p, err := an.Load(*repo, nil, false)
 		if err != nil {
